@@ -27,6 +27,7 @@ type VFConfig struct {
 	BodyBig       int64 // protocol: sets above this size may be refused when the flush buffer is large
 	FlushMax      int64
 	MaxReq        int
+	TimeoutMS     int // protocol: receive / process timeout (0 = one hour, so that it never fires)
 }
 
 func (c *VFConfig) fill() {
@@ -99,6 +100,9 @@ func VFApplyConfig(cfg VFConfig, home string) {
 		config.MCConf.FlushMax = cfg.FlushMax
 	}
 	config.MCConf.TimeoutMS = 3600 * 1000
+	if cfg.TimeoutMS > 0 {
+		config.MCConf.TimeoutMS = cfg.TimeoutMS
+	}
 	config.MCConf.MaxReq = 16
 	if cfg.MaxReq > 0 {
 		config.MCConf.MaxReq = cfg.MaxReq
